@@ -4,6 +4,7 @@ Executable model of dfs/main.cc and dfs/img_load.cc: option parsing
 dispatch, exit status.
 -/
 import Beeb.Model.Cmd
+import Std.Data.HashMap
 
 namespace Beeb
 
@@ -13,6 +14,7 @@ namespace Beeb
 inductive HostFile where
   | missing
   | raw (content : Array Sector) (size : Nat)
+  | sparse (sectors : Nat) (tbl : Std.HashMap Nat Sector)   -- mostly-zero file (large MMB images)
   | gzBad
 deriving Inhabited
 
@@ -116,7 +118,7 @@ inductive Attach where
   | fail                       -- diagnostic + exit 1
   | abort (site : String)
   | unmodelled (what : String)
-  | ok (views : List View)
+  | ok (views : List View) (warned : Bool := false)
 
 /-- the views an image file presents (NonInterleavedFile / InterleavedFile / MmbFile ctors) -/
 def imageViews (name : Bytes) (m : Media) (ld : Loader) (ndebug : Bool) : Attach :=
@@ -126,29 +128,31 @@ def imageViews (name : Bytes) (m : Media) (ld : Loader) (ndebug : Bool) : Attach
     | .abort s => .abort s
     | .err _ => .fail
     | .ok none => .fail
-    | .ok (some ff) => .ok (viewsNonInterleaved ff.geom)
+    | .ok (some ff) => .ok (viewsNonInterleaved ff.geom) false
   | .interleaved =>
     match identifyImage m (bytesToString name) ndebug with
     | .abort s => .abort s
     | .err _ => .fail
     | .ok none => .fail
-    | .ok (some ff) => .ok (viewsInterleaved ff.geom)
+    | .ok (some ff) => .ok (viewsInterleaved ff.geom) false
   | .mmb =>
     -- 32 index sectors, 16 entries each, entry 0 of sector 0 is the header
-    let rec secs (k : Nat) (sec : Nat) (acc : List View) : Option (List View) :=
+    let rec secs (k : Nat) (sec : Nat) (acc : List View) (warn : Bool) : Option (List View × Bool) :=
       match k with
-      | 0 => some acc
+      | 0 => some (acc, warn)
       | k + 1 =>
         match m sec with
         | none => none
         | some s =>
-          let vs := (List.range 16).filterMap fun i =>
-            if sec == 0 && i == 0 then none
-            else some (mmbView (sec * 16 + i - 1) (sget s (i * 16 + 15)))
-          secs k (sec + 1) (acc ++ vs)
-    match secs 32 0 [] with
+          let sts := (List.range 16).filterMap fun i =>
+            if sec == 0 && i == 0 then none else some (sec * 16 + i - 1, sget s (i * 16 + 15))
+          let vs := sts.map fun (slot, st) => mmbView slot st
+          -- an unknown status byte is reported on stderr ("MMB entry … has unexpected type")
+          let w := sts.any fun (_, st) => !(st == 0x00 || st == 0x0F || st == 0xF0 || st == 0xFF)
+          secs k (sec + 1) (acc ++ vs) (warn || w)
+    match secs 32 0 [] false with
     | none => .fail        -- BadFileSystem("MMB file is too short") reaches main's handler
-    | some vs => .ok vs
+    | some (vs, w) => .ok vs w
   | .hfe => .unmodelled "hfe"
   | .hxcmfm => .unmodelled "hxcmfm"
 
@@ -220,14 +224,17 @@ def dfsMain (fs : HostFs) (ndebug : Bool) (screenCols : Option Nat) (argv : List
           match fs arg with
           | .missing => .error { err := true, exit := 1 }
           | .gzBad => .error { err := true, exit := 1 }
-          | .raw secs _ =>
+          | hf =>
             let _ := isGz
-            let m := mediaOfArray secs
+            let m : Media := match hf with
+              | .raw secs _ => mediaOfArray secs
+              | .sparse n tbl => fun lba => if lba < n then some (tbl.getD lba (List.replicate 256 0)) else none
+              | _ => fun _ => none
             match imageViews arg m ld ndebug with
             | .fail => .error { err := true, exit := 1 }
             | .abort s => .error { err := true, exit := 134, crash := some s }
             | .unmodelled w => .error { unmodelled := some w }
-            | .ok views =>
+            | .ok views warned =>
               let idx := st.medias.length
               -- ViewFile::connect_drives: identify the file system of each formatted view
               let rec cfgs : List View → Except RunRes (List DriveCfg)
@@ -247,7 +254,7 @@ def dfsMain (fs : HostFs) (ndebug : Bool) (screenCols : Option Nat) (argv : List
               | .ok ds =>
                 match st.storage.connect ds st.policy with
                 | none => .error { err := true, exit := 1 }
-                | some s' => loop more { st with storage := s', medias := st.medias ++ [m] }
+                | some s' => loop more { st with storage := s', medias := st.medias ++ [m], verbose := st.verbose || warned }
       | .dir =>
         if arg.length != 1 then .error { err := true, exit := 1 }
         else loop more { st with ctx := { st.ctx with dir := arg.getD 0 0 } }
